@@ -294,12 +294,22 @@ func (t *BPTree) WriteNode(n *Node, off int64, syncEnable bool, fd *os.File) (nu
 		off = n.Address
 	}
 
+	if vf := verifOp("write", fd.Name(), off, int64(len(bn)), bn); vf != nil {
+		if vf.Partial > 0 {
+			_, _ = fd.WriteAt(bn[:vf.Partial], off)
+		}
+		return 0, vf.Err
+	}
+
 	number, err = fd.WriteAt(bn, off)
 	if err != nil {
 		return 0, err
 	}
 
 	if syncEnable {
+		if vf := verifOp("sync", fd.Name(), 0, 0, nil); vf != nil {
+			return 0, vf.Err
+		}
 		err = fd.Sync()
 		if err != nil {
 			return 0, err
@@ -317,6 +327,9 @@ func (t *BPTree) WriteNodes(rwMode RWMode, syncEnable bool, flag int) error {
 		err error
 	)
 
+	if vf := verifOp("open", t.Filepath, 0, 0, nil); vf != nil {
+		return vf.Err
+	}
 	fd, err := os.OpenFile(t.Filepath, os.O_CREATE|os.O_RDWR, 0644)
 	defer fd.Close()
 
